@@ -409,9 +409,20 @@ fn ctor<B: VOps>(op: &str, y: &Y, a: &Args) -> Result<(B, Out), Out> {
         }
         "read" => {
             let b = a.bytes.as_ref().unwrap();
-            let mut cur = std::io::Cursor::new(&b[..]);
-            match B::read(&mut cur, n, endian(a)) {
-                Ok(v) => Ok((v, Out::Num(cur.position() as i64))),
+            // a.j = Some(k): the reader hands out at most k bytes per call (a pipe / socket / chained reader)
+            struct Dribble<'a> {
+                cur: std::io::Cursor<&'a [u8]>,
+                chunk: usize,
+            }
+            impl<'a> std::io::Read for Dribble<'a> {
+                fn read(&mut self, buf: &mut [u8]) -> std::io::Result<usize> {
+                    let k = buf.len().min(self.chunk);
+                    std::io::Read::read(&mut self.cur, &mut buf[..k])
+                }
+            }
+            let mut rd = Dribble { cur: std::io::Cursor::new(&b[..]), chunk: a.j.filter(|k| *k > 0).unwrap_or(usize::MAX) };
+            match B::read(&mut rd, n, endian(a)) {
+                Ok(v) => Ok((v, Out::Num(rd.cur.position() as i64))),
                 Err(_) => Err(Out::ErrIo),
             }
         }
